@@ -225,7 +225,9 @@ def replay_walk(item):
                 res["findings"].append(finding("ids", tx, okind, {"problems": sess.reg.problems[:3]}, conc=conc))
                 return res
             sess.touch()
-            if "dead_ids" in opts.get("probes", ()):
+            # ids of deleted entities are probed now and then, not after every call: asking for a dead id can itself
+            # repair what a handle remembers about it
+            if "dead_ids" in opts.get("probes", ()) and sess.rnd.random() < 0.3:
                 n0 = len(res["findings"])
                 probe_dead_ids(sess, tx, exp, conc, res, okind)
                 if len(res["findings"]) > n0:
